@@ -236,7 +236,7 @@ def random_cases(draw):
 
 def plan(tier, seed):
     nshards = 16
-    examples = 150 if tier == "quick" else 600
+    examples = 150 if tier == "quick" else 4000
     tasks = [{"engine": "systematic", "index": i, "count": nshards} for i in range(nshards)]
     tasks += [{"engine": "hyp", "examples": examples, "seed": seed * 1000 + i} for i in range(nshards)]
     return tasks
